@@ -438,6 +438,35 @@ fn native_one<T: Nat>(cfg: &RunCfg, extra: &mut Extra, lo_exp: i32, hi_exp: i32)
                 chk("a %= b", t.0, x % y);
                 let sum: $A<T> = [a, b, a].iter().sum();
                 chk("Sum", sum.0, T::from64(0.0) + x + y + x);
+                chk("-&a", (-&a).0, -x);
+                chk("&a - &b", (&a - &b).0, x - y);
+                chk("&a % &b", (&a % &b).0, x % y);
+                // Sum is the left fold from zero whatever the iterator: by value, through adaptors
+                // whose size hint has lower bound 0, and over a list longer than any block size
+                let list = [a, b, a, b, b];
+                let want = T::from64(0.0) + x + y + x + y + y;
+                let v: $A<T> = list.iter().cloned().sum();
+                chk("Sum over values", v.0, want);
+                let v: $A<T> = list.iter().filter(|_| true).sum();
+                chk("Sum over references through filter", v.0, want);
+                let v: $A<T> = list.iter().cloned().skip_while(|_| false).sum();
+                chk("Sum over values through skip_while", v.0, want);
+                let mut k = 0usize;
+                let v: $A<T> = std::iter::from_fn(|| { let r = list.get(k).cloned(); k += 1; r }).sum();
+                chk("Sum over values from from_fn", v.0, want);
+                let v: $A<T> = list.iter().filter(|t| t.0 > T::from64(0.0)).sum();
+                let mut w = T::from64(0.0);
+                for t in list.iter() { if t.0 > T::from64(0.0) { w = w + t.0; } }
+                chk("Sum over the positive angles only", v.0, w);
+                if i % 64 == 0 {
+                    let long: Vec<$A<T>> = (0..300).map(|j| if j % 3 == 0 { a } else { b }).collect();
+                    let mut w = T::from64(0.0);
+                    for t in long.iter() { w = w + t.0; }
+                    let v: $A<T> = long.iter().sum();
+                    chk("Sum over 300 references", v.0, w);
+                    let v: $A<T> = long.iter().cloned().sum();
+                    chk("Sum over 300 values", v.0, w);
+                }
                 bad
             }};
         }
